@@ -10,6 +10,7 @@ import Mathlib.Tactic.Tauto
 -/
 open Scalar C15 C15.Spec
 set_option maxRecDepth 4000
+set_option linter.unusedSimpArgs false
 noncomputable section
 
 namespace C15
@@ -121,9 +122,16 @@ theorem edgeOK_swap (e f : P2 ℝ × P2 ℝ) : edgeOK e.swap f.swap = edgeOK e f
   obtain ⟨a, b⟩ := e; obtain ⟨c, d⟩ := f
   unfold edgeOK
   simp only [Prod.swap]
-  rw [ptEq_comm a d, ptEq_comm c b, foldBack_rev b a c, foldBack_rev d c a, segMeet_flip, segMeet_flip',
-    ptEq_comm b d |>.symm ▸ rfl]
-  cases h1 : ptEq b c <;> cases h2 : ptEq d a <;> simp [Bool.or_comm]
+  rw [segMeet_flip, segMeet_flip', ptEq_comm a d, ptEq_comm c b]
+  cases h1 : ptEq b c <;> cases h2 : ptEq d a
+  · simp [Bool.or_comm]
+  · have := (ptEq_eq d a).1 h2; subst this
+    simp only [Bool.and_false, Bool.false_and, Bool.true_and, Bool.and_true, Bool.false_eq_true, if_true, if_false]
+    rw [foldBack_rev]
+  · have := (ptEq_eq b c).1 h1; subst this
+    simp only [Bool.and_false, Bool.false_and, Bool.true_and, Bool.and_true, Bool.false_eq_true, if_true, if_false]
+    rw [foldBack_rev]
+  · simp
 
 /-! ### edges of a closed cycle -/
 
@@ -153,8 +161,10 @@ theorem cycEdges_rotate_one (a : β) (t : List β) :
   | nil => exact List.Perm.refl _
   | cons b t =>
     have h1 : cycEdges ((b :: t) ++ [a]) = path ((b :: t) ++ [a]) ++ [(a, b)] := by
-      rw [List.cons_append, cycEdges_cons, ← path_append_two]
-      simp
+      have := path_append_two (b :: t) a b
+      simp only [List.cons_append, List.nil_append] at this
+      rw [List.cons_append, cycEdges_cons, List.append_assoc]
+      exact this
     have h2 : cycEdges (a :: b :: t) = (a, b) :: path ((b :: t) ++ [a]) := by
       rw [cycEdges_cons]; simp
     rw [h1, h2]
@@ -235,6 +245,189 @@ theorem allPairs_congr {R S : β → β → Bool} (h : ∀ x y, R x y = S x y) (
   rw [this]
 
 end lists
+
+/-! ### positive affine maps preserve every predicate (used for `_is_simple`'s normalisation) -/
+
+/-- `p ↦ (p − c) / k` -/
+def aff (c : P2 ℝ) (k : ℝ) (p : P2 ℝ) : P2 ℝ := ⟨(p.x - c.x) / k, (p.y - c.y) / k⟩
+
+theorem aff_le {k : ℝ} (hk : 0 < k) (u v c : ℝ) : (u - c) / k ≤ (v - c) / k ↔ u ≤ v := by
+  rw [div_le_div_iff_of_pos_right hk]; exact sub_le_sub_iff_right c
+
+theorem orient_aff (c : P2 ℝ) {k : ℝ} (hk : 0 < k) (a b p : P2 ℝ) :
+    orient (aff c k a) (aff c k b) (aff c k p) = orient a b p / (k * k) := by
+  have : k ≠ 0 := hk.ne'
+  unfold orient aff; field_simp; ring
+
+theorem onSeg_aff (c : P2 ℝ) {k : ℝ} (hk : 0 < k) (a b p : P2 ℝ) :
+    onSeg (aff c k a) (aff c k b) (aff c k p) = onSeg a b p := by
+  have hkk : k * k ≠ 0 := (mul_pos hk hk).ne'
+  rw [Bool.eq_iff_iff, onSeg_iff, onSeg_iff, orient_aff c hk, div_eq_zero_iff]
+  simp only [aff, aff_le hk, hkk, or_false]
+
+theorem oppositeSigns_div {m : ℝ} (hm : 0 < m) (u v : ℝ) :
+    oppositeSigns (u / m) (v / m) = oppositeSigns u v := by
+  have h1 : ∀ w : ℝ, w / m < 0 ↔ w < 0 := fun w => by rw [div_lt_iff₀ hm, zero_mul]
+  rw [Bool.eq_iff_iff, oppositeSigns_iff, oppositeSigns_iff, div_pos_iff_of_pos_right hm,
+    div_pos_iff_of_pos_right hm, h1, h1]
+
+theorem segMeet_aff (c : P2 ℝ) {k : ℝ} (hk : 0 < k) (a b p q : P2 ℝ) :
+    segMeet (aff c k a) (aff c k b) (aff c k p) (aff c k q) = segMeet a b p q := by
+  unfold segMeet
+  simp only [orient_aff c hk, onSeg_aff c hk, oppositeSigns_div (mul_pos hk hk)]
+
+theorem aff_inj (c : P2 ℝ) {k : ℝ} (hk : 0 < k) (p q : P2 ℝ) : aff c k p = aff c k q ↔ p = q := by
+  have : k ≠ 0 := hk.ne'
+  constructor
+  · intro h
+    have hx := congrArg P2.x h; have hy := congrArg P2.y h
+    simp only [aff] at hx hy
+    rw [div_left_inj' this] at hx hy
+    cases p; cases q; simp only [P2.mk.injEq]; constructor <;> linarith
+  · intro h; rw [h]
+
+theorem ptEq_aff (c : P2 ℝ) {k : ℝ} (hk : 0 < k) (p q : P2 ℝ) :
+    ptEq (aff c k p) (aff c k q) = ptEq p q := by
+  rw [Bool.eq_iff_iff, ptEq_eq, ptEq_eq, aff_inj c hk]
+
+theorem edgeOK_aff (c : P2 ℝ) {k : ℝ} (hk : 0 < k) (e f : P2 ℝ × P2 ℝ) :
+    edgeOK (Prod.map (aff c k) (aff c k) e) (Prod.map (aff c k) (aff c k) f) = edgeOK e f := by
+  obtain ⟨a, b⟩ := e; obtain ⟨p, q⟩ := f
+  unfold edgeOK foldBack
+  simp only [Prod.map, ptEq_aff c hk, onSeg_aff c hk, segMeet_aff c hk]
+
+/-- `edgesOK` is invariant under translation and positive scaling -/
+theorem edgesOK_aff (c : P2 ℝ) {k : ℝ} (hk : 0 < k) (l : List (P2 ℝ)) :
+    edgesOK (l.map (aff c k)) = edgesOK l := by
+  unfold edgesOK
+  rw [cycEdges_map, allPairs_map]
+  exact allPairs_congr (fun e f => edgeOK_aff c hk e f) _
+
+theorem normalise_eq_aff (l : List (P2 ℝ)) : ∃ (c : P2 ℝ) (k : ℝ), 0 < k ∧ normalise l = l.map (aff c k) := by
+  unfold normalise
+  simp only [lit_zero]
+  split
+  · rename_i h
+    refine ⟨mean2 l, _, h, ?_⟩
+    simp only [List.map_map]; rfl
+  · refine ⟨mean2 l, 1, one_pos, ?_⟩
+    apply List.map_congr_left; intro p _; simp [aff]
+
+/-- the normalisation inside `_is_simple` does not change the verdict -/
+theorem isSimple_eq (planar : List (V3 ℝ)) : isSimple planar = edgesOK (planar.map xy) := by
+  unfold isSimple
+  obtain ⟨c, k, hk, h⟩ := normalise_eq_aff (planar.map xy)
+  rw [h, edgesOK_aff c hk]
+
+/-! ### `_reorder_verts`: the stable insertion sort -/
+
+section sort
+variable {β : Type}
+
+/-- `a` may stay before `b`: not (b < a) in the lexicographic (angle, distance) order -/
+def keyLe (a b : (ℝ × ℝ) × β) : Prop := keyLt b a = false
+
+instance : DecidableRel (keyLe (β := β)) := fun a b => inferInstanceAs (Decidable (keyLt b a = false))
+
+theorem keyLt_iff (a b : (ℝ × ℝ) × β) :
+    keyLt a b = true ↔ a.1.1 < b.1.1 ∨ (a.1.1 = b.1.1 ∧ a.1.2 < b.1.2) := by
+  unfold keyLt
+  rw [Bool.or_eq_true, Bool.and_eq_true, eqb_iff]
+  simp only [decide_eq_true_eq]
+
+theorem keyLe_iff (a b : (ℝ × ℝ) × β) :
+    keyLe a b ↔ a.1.1 < b.1.1 ∨ (a.1.1 = b.1.1 ∧ a.1.2 ≤ b.1.2) := by
+  unfold keyLe
+  rw [← Bool.not_eq_true, keyLt_iff]
+  constructor
+  · intro h
+    rcases lt_trichotomy a.1.1 b.1.1 with h1 | h1 | h1
+    · exact Or.inl h1
+    · refine Or.inr ⟨h1, ?_⟩
+      by_contra h2; exact h (Or.inr ⟨h1.symm, not_le.1 h2⟩)
+    · exact absurd (Or.inl h1) h
+  · rintro (h | ⟨h1, h2⟩) (h3 | ⟨h3, h4⟩)
+    · exact lt_asymm h h3
+    · rw [h3] at h; exact lt_irrefl _ h
+    · rw [h1] at h3; exact lt_irrefl _ h3
+    · exact not_lt.2 h2 h4
+
+instance : Std.Total (keyLe (β := β)) := ⟨fun a b => by
+  rw [keyLe_iff, keyLe_iff]
+  rcases lt_trichotomy a.1.1 b.1.1 with h | h | h
+  · exact Or.inl (Or.inl h)
+  · rcases le_total a.1.2 b.1.2 with h2 | h2
+    · exact Or.inl (Or.inr ⟨h, h2⟩)
+    · exact Or.inr (Or.inr ⟨h.symm, h2⟩)
+  · exact Or.inr (Or.inl h)⟩
+
+instance : IsTrans ((ℝ × ℝ) × β) keyLe := ⟨fun a b c => by
+  rw [keyLe_iff, keyLe_iff, keyLe_iff]
+  rintro (h | ⟨h1, h2⟩) (h' | ⟨h1', h2'⟩)
+  · exact Or.inl (lt_trans h h')
+  · exact Or.inl (h1' ▸ h)
+  · exact Or.inl (h1 ▸ h')
+  · exact Or.inr ⟨h1.trans h1', h2.trans h2'⟩⟩
+
+theorem insertBy_eq (x : (ℝ × ℝ) × β) (l : List ((ℝ × ℝ) × β)) :
+    insertBy keyLt x l = List.orderedInsert keyLe x l := by
+  induction l with
+  | nil => rfl
+  | cons y ys ih =>
+    simp only [insertBy, List.orderedInsert_cons, ih]
+    by_cases h : keyLt y x = true
+    · have h' : ¬ keyLe x y := by unfold keyLe; simp [h]
+      rw [if_pos h, if_neg h']
+    · have h' : keyLe x y := by unfold keyLe; simpa using h
+      rw [if_neg h, if_pos h']
+
+theorem isort_eq (l : List ((ℝ × ℝ) × β)) : isort keyLt l = List.insertionSort keyLe l := by
+  induction l with
+  | nil => rfl
+  | cons x xs ih => simp only [isort, List.insertionSort_cons, ih, insertBy_eq]
+
+theorem isort_perm (l : List ((ℝ × ℝ) × β)) : (isort keyLt l).Perm l := by
+  rw [isort_eq]; exact List.perm_insertionSort _ _
+
+theorem isort_sorted (l : List ((ℝ × ℝ) × β)) : (isort keyLt l).Pairwise keyLe := by
+  rw [isort_eq]; exact List.pairwise_insertionSort _ _
+
+/-- the head stays in front if nothing is strictly smaller -/
+theorem isort_head (x : (ℝ × ℝ) × β) (xs : List ((ℝ × ℝ) × β)) (h : ∀ y ∈ xs, keyLe x y) :
+    (isort keyLt (x :: xs)).head? = some x := by
+  rw [isort_eq, List.insertionSort_cons]
+  have h' : ∀ y ∈ List.insertionSort keyLe xs, keyLe x y := fun y hy =>
+    h y ((List.perm_insertionSort keyLe xs).mem_iff.1 hy)
+  cases hs : List.insertionSort keyLe xs with
+  | nil => simp
+  | cons y ys =>
+    have : keyLe x y := h' y (by rw [hs]; exact List.mem_cons_self)
+    rw [List.orderedInsert_cons, if_pos this]; rfl
+
+end sort
+
+/-! ### `np.mod` -/
+
+theorem pmod_nonneg (x : ℝ) {m : ℝ} (hm : 0 < m) : 0 ≤ pmod x m := by
+  unfold pmod
+  have h1 : (⌊x / m⌋ : ℝ) ≤ x / m := Int.floor_le _
+  have h2 : (⌊x / m⌋ : ℝ) * m ≤ x / m * m := mul_le_mul_of_nonneg_right h1 hm.le
+  have h3 : x / m * m = x := div_mul_cancel₀ x hm.ne'
+  show 0 ≤ x - (⌊x / m⌋ : ℝ) * m
+  linarith
+
+theorem pmod_lt (x : ℝ) {m : ℝ} (hm : 0 < m) : pmod x m < m := by
+  unfold pmod
+  have h1 : x / m < (⌊x / m⌋ : ℝ) + 1 := Int.lt_floor_add_one _
+  have h2 : x / m * m < ((⌊x / m⌋ : ℝ) + 1) * m := mul_lt_mul_of_pos_right h1 hm
+  have h3 : x / m * m = x := div_mul_cancel₀ x hm.ne'
+  show x - (⌊x / m⌋ : ℝ) * m < m
+  nlinarith
+
+theorem pmod_zero (m : ℝ) : pmod 0 m = 0 := by
+  unfold pmod
+  show (0:ℝ) - (⌊(0:ℝ) / m⌋ : ℝ) * m = 0
+  simp
 
 end C15
 end
